@@ -200,7 +200,11 @@ def explore_block(acc, cfg, depth):
 
 
 # ---------------------------------------------------------------- slave context
-def explore_slave(acc, zero_mode, shared):
+def explore_slave(acc, zero_mode, shared, global_default=False, explicit=True):
+    """global_default: the process-wide Defaults.ZeroMode while the context is built; explicit: zero_mode is passed to the
+    constructor (and wins), otherwise the context takes the process-wide default (zero_mode is then that default)"""
+    from pymodbus.constants import Defaults
+
     def blocks():
         b = [ModbusSequentialDataBlock(s, [t * 10 + i for i in range(4)]) for t, s in ((1, 1), (2, 2), (3, 1), (4, 3))]
         if shared:
@@ -208,13 +212,23 @@ def explore_slave(acc, zero_mode, shared):
             b[3] = b[2]
         return b
     cfgname = 'slave/zero=%s/shared=%s' % (zero_mode, shared)
+    if global_default or not explicit:
+        cfgname += '/default=%s/%s' % (global_default, 'explicit' if explicit else 'implicit')
     off = 0 if zero_mode else 1
     starts = {'d': 1, 'c': 2 if not shared else 1, 'h': 1, 'i': 3 if not shared else 1}
     tabval = {'d': 1, 'c': 2 if not shared else 1, 'h': 3, 'i': 4 if not shared else 3}
 
     def fresh():
         di, co, hr, ir = blocks()
-        ctx = ModbusSlaveContext(di=di, co=co, hr=hr, ir=ir, zero_mode=zero_mode)
+        saved = Defaults.ZeroMode
+        Defaults.ZeroMode = global_default
+        try:
+            if explicit:
+                ctx = ModbusSlaveContext(di=di, co=co, hr=hr, ir=ir, zero_mode=zero_mode)
+            else:
+                ctx = ModbusSlaveContext(di=di, co=co, hr=hr, ir=ir)
+        finally:
+            Defaults.ZeroMode = saved
         model = {}
         for t in 'dchi':
             model[t] = dict((starts[t] - off + i, tabval[t] * 10 + i) for i in range(4))
@@ -241,18 +255,28 @@ def explore_slave(acc, zero_mode, shared):
                 if not inside:
                     continue
                 acc.inc('transitions', 3)
-                got = list(ctx.getValues(fx, a, c))
+                try:
+                    got = list(ctx.getValues(fx, a, c))
+                except Exception as e:   # noqa
+                    got = 'raise:' + type(e).__name__
                 if got != [model[t][a + i] for i in range(c)]:
-                    acc.violation('C18/slave-context/getValues/wrong-values/zero=%s' % zero_mode, w, 'got %r' % got, cfgname)
+                    acc.violation('C18/slave-context/getValues/wrong-values/zero=%s' % zero_mode, w, 'got %r' % (got,), cfgname)
                 new = [900 + i for i in range(c)]
-                ctx.setValues(fx, a, list(new))
+                try:
+                    ctx.setValues(fx, a, list(new))
+                except Exception as e:   # noqa
+                    acc.violation('C18/slave-context/setValues/raise:%s/zero=%s' % (type(e).__name__, zero_mode), w, repr(e)[:80], cfgname)
+                    continue
                 for i, x in enumerate(new):
                     model[t][a + i] = x
                 for fy in FCS:       # visible through every function code of the same table, invisible elsewhere
                     ty = FCS[fy]
                     for b0 in range(0, 6):
                         if (b0) in model[ty]:
-                            g = ctx.getValues(fy, b0, 1)[0]
+                            try:
+                                g = ctx.getValues(fy, b0, 1)[0]
+                            except Exception as e:   # noqa
+                                g = 'raise:' + type(e).__name__
                             if g != model[ty][b0]:
                                 acc.violation('C18/slave-context/setValues/wrong-table-or-cell/zero=%s' % zero_mode,
                                               dict(w, read_fx=fy, read_address=b0),
@@ -447,7 +471,7 @@ def shard(args):
     if what == 'block':
         explore_block(acc, args[1], args[2])
     elif what == 'slave':
-        explore_slave(acc, args[1], args[2])
+        explore_slave(acc, *args[1:])
     else:
         explore_server(acc, args[1], args[2], args[3])
     return acc
@@ -457,6 +481,9 @@ def run(tier, seed):
     depth = 3 if tier == 'quick' else 5
     shards = [('block', c, depth) for c in block_configs(tier)]
     shards += [('slave', z, s) for z in (False, True) for s in (False, True)]
+    # ... built while the process-wide default Defaults.ZeroMode is on (an explicit argument wins), and without the
+    # argument (the context takes the default)
+    shards += [('slave', z, False, True, True) for z in (False, True)] + [('slave', g, False, g, False) for g in (False, True)]
     shards += [('factories',)]
     sdepth = 3 if tier == 'quick' else 4
     shards += [('server', True, (), sdepth)] + [('server', False, ids, sdepth) for ids in ((), 'no-arg', (1,), (1, 2), (0, 247))]
@@ -493,6 +520,8 @@ def replay(w):
         for z in (False, True):
             for s in (False, True):
                 explore_slave(acc, z, s)
+            explore_slave(acc, z, False, True, True)
+            explore_slave(acc, z, False, z, False)
         vs = [v for v in acc.violations if v['witness'] == w]
     else:
         single = 'single=True' in w['ctx']
